@@ -1,5 +1,5 @@
 #!/venv/bin/python
-"""Freeze instance-count floors from the evidence of a clean run (obligations >= 80%, per rule >= 70%, at least 1).
+"""Freeze instance-count floors from the evidence of a clean run (obligations >= 80%; per rule >= 60% for rules with at least 10 instances).
 Analysing fewer instances than that is reported as ANALYSIS-ERROR, never as a pass."""
 import glob, json, math
 floors = {}
@@ -8,7 +8,7 @@ for f in sorted(glob.glob("/verif/evidence/C*.json")):
     c = d["coverage"]
     floors[d["property_id"]] = {
         "obligations": max(1, math.floor(c["obligations"] * 0.8)),
-        "rules": {r: max(1, math.floor(sum(v.values()) * 0.7)) for r, v in c["by_rule"].items()},
+        "rules": {r: math.floor(sum(v.values()) * 0.6) for r, v in c["by_rule"].items() if sum(v.values()) >= 10},
         "measured": c["obligations"],
     }
 json.dump(floors, open("/verif/floors.json", "w"), indent=1, sort_keys=True)
